@@ -105,7 +105,7 @@ fn base_case(t: &mut Tape, tapes: &[Vec<u32>], cfg: Cfg, reqs: Vec<Req>) -> Pair
         reqs,
         ops: vec![],
         fault: None,
-        drop_send_request_at_end: true,
+        drop_send_request_at_end: true, nest: vec![]
     }
 }
 
